@@ -329,8 +329,11 @@ pub fn worker_handle(req: &Value) -> Value {
         Ok(m) => m,
         Err(e) => return json!({"events": [], "loaderr": e}),
     };
+    let lite = req.get("lite").and_then(|l| l.as_bool()).unwrap_or(false);
     let mut bad = vec![];
-    events.push(json!({"ev": "Load", "model": abstract_model(&m, &mut it, &mut bad), "name": req.get("name").cloned().unwrap_or(json!(""))}));
+    if !lite {
+        events.push(json!({"ev": "Load", "model": abstract_model(&m, &mut it, &mut bad), "name": req.get("name").cloned().unwrap_or(json!(""))}));
+    }
     let mut after_purge = false;
     for op in req.get("ops").and_then(|o| o.as_array()).cloned().unwrap_or_default() {
         match op.as_str().unwrap_or("") {
@@ -342,6 +345,65 @@ pub fn worker_handle(req: &Value) -> Value {
             "compute" => {
                 events.push(compute_event(&m, &mut it, after_purge));
                 after_purge = false;
+            }
+            "compute_lite" => {
+                // totality only: outcome, finiteness, JSON round trip of the result, and a probe computation of a
+                // known-good model after a failure (does the failure affect later computations?)
+                let r = catch(std::panic::AssertUnwindSafe(|| m.energy_indicators()));
+                let mut e = json!({"ev": "ComputeLite", "name": req.get("name").cloned().unwrap_or(json!("")), "edit": req.get("edit").cloned().unwrap_or(json!("")),
+                    "graph": graph_of(&m, &mut it)});
+                match r {
+                    Ok(ind) => {
+                        let js = ind.as_json().unwrap_or_default();
+                        let v: Value = serde_json::from_str(&js).unwrap_or(json!(null));
+                        let mut nulls: Vec<String> = vec![];
+                        fn walk(v: &Value, path: String, out: &mut Vec<String>) {
+                            match v {
+                                Value::Null => out.push(path),
+                                Value::Object(o) => for (k, x) in o { walk(x, format!("{}.{}", path, k), out) },
+                                Value::Array(a) => for (i, x) in a.iter().enumerate() { if i < 3 { walk(x, format!("{}[{}]", path, i), out) } },
+                                _ => {}
+                            }
+                        }
+                        // only the top-level indicator structures hold plain numbers; props hold legitimate Option fields
+                        for k in ["area_ref", "compactness", "vol_env_net", "vol_env_gross", "q_soljul_data", "n50_data"] {
+                            walk(&v[k], k.to_string(), &mut nulls);
+                        }
+                        walk(&v["props"]["global"], "props.global".to_string(), &mut nulls);
+                        nulls.retain(|p| !p.ends_with("n_50_test_ach"));
+                        let roundtrips = serde_json::from_str::<EnergyIndicators>(&js).is_ok();
+                        let sane_sizes = m.spaces.iter().all(|s| s.height > 0.0 && s.multiplier > 0.0 && s.height.is_finite() && s.multiplier.is_finite())
+                            && m.walls.iter().all(|w| w.area() > 0.0 && w.area().is_finite())
+                            && m.windows.iter().all(|w| w.geometry.width > 0.0 && w.geometry.height > 0.0)
+                            && ind.area_ref > 0.0 && ind.vol_env_net > 0.0
+                            && m.cons.materials.iter().all(|x| match x.properties { bemodel::MatProps::Detailed { conductivity, .. } => conductivity > 0.0, bemodel::MatProps::Resistance { resistance, .. } => resistance >= 0.0 })
+                            && m.cons.wallcons.iter().all(|c| c.layers.iter().all(|l| l.e >= 0.0))
+                            && m.cons.wincons.iter().all(|c| c.f_f >= 0.0 && c.f_f <= 1.0 && c.c_100 >= 0.0 && c.delta_u >= 0.0)
+                            && m.cons.glasses.iter().all(|g| g.u_value > 0.0 && g.g_gln >= 0.0)
+                            && m.cons.frames.iter().all(|g| g.u_value > 0.0)
+                            && m.thermal_bridges.iter().all(|t| t.l >= 0.0 && t.psi.is_finite())
+                            && m.schedules.day.iter().all(|d| d.values.len() == 24 && d.values.iter().all(|v| v.is_finite()))
+                            && m.schedules.week.iter().all(|w| w.values.iter().map(|v| v.1).sum::<u32>() == 7)
+                            && m.schedules.year.iter().all(|y| !y.values.is_empty());
+                        e["outcome"] = json!("ok");
+                        e["nonfinite"] = json!(nulls);
+                        e["roundtrips"] = json!(roundtrips);
+                        e["sane"] = json!(sane_sizes);
+                    }
+                    Err(site) => {
+                        e["outcome"] = json!("panic");
+                        e["site"] = json!(site);
+                        e["nonfinite"] = json!([]);
+                        e["roundtrips"] = json!(false);
+                        e["sane"] = json!(false);
+                        // does the failure affect later computations in this process?
+                        if let Some(pj) = req.get("probe_json").and_then(|p| p.as_str()) {
+                            let ok = catch(std::panic::AssertUnwindSafe(|| Model::from_json(pj).map(|g| g.energy_indicators().area_ref.is_finite()).unwrap_or(false))).unwrap_or(false);
+                            e["probe_ok"] = json!(ok);
+                        }
+                    }
+                }
+                events.push(e);
             }
             _ => {}
         }
@@ -482,17 +544,34 @@ pub fn drive(reqs: Vec<Value>, timeout: Duration, out: &mut Vec<String>, stats: 
                 if ans.get("loaderr").is_some() {
                     stats.loaderrs += 1;
                 }
+                let mut poisoned = false;
                 for e in ans.get("events").and_then(|e| e.as_array()).cloned().unwrap_or_default() {
+                    if e.get("probe_ok").and_then(|p| p.as_bool()) == Some(false) {
+                        poisoned = true;
+                    }
                     out.push(e.to_string());
+                    stats.events += 1;
+                }
+                if poisoned {
+                    // the process is damaged for good (a poisoned mutex): continue in a fresh one so that the
+                    // remaining cases are judged on their own
+                    w.restart();
+                    out.push(json!({"ev": "Restart"}).to_string());
                     stats.events += 1;
                 }
             }
             Err(kind) => {
                 // the worker hung or died on this request: that is an observation about the code
                 stats.hangs += 1;
-                out.push(json!({"ev": "Load", "model": req.get("abs").cloned().unwrap_or(json!({})), "name": req.get("name").cloned().unwrap_or(json!("")), "lost": true}).to_string());
-                out.push(json!({"ev": "Compute", "outcome": kind, "site": kind, "name": req.get("name").cloned().unwrap_or(json!(""))}).to_string());
-                stats.events += 2;
+                if req.get("lite").and_then(|l| l.as_bool()).unwrap_or(false) {
+                    out.push(json!({"ev": "ComputeLite", "outcome": kind, "site": kind, "name": req.get("name").cloned().unwrap_or(json!("")), "edit": req.get("edit").cloned().unwrap_or(json!("")),
+                        "graph": {}, "nonfinite": [], "roundtrips": false, "sane": false}).to_string());
+                    stats.events += 1;
+                } else {
+                    out.push(json!({"ev": "Load", "model": req.get("abs").cloned().unwrap_or(json!({})), "name": req.get("name").cloned().unwrap_or(json!("")), "lost": true}).to_string());
+                    out.push(json!({"ev": "Compute", "outcome": kind, "site": kind, "name": req.get("name").cloned().unwrap_or(json!(""))}).to_string());
+                    stats.events += 2;
+                }
             }
         }
     }
